@@ -23,4 +23,37 @@ PROPS = {
         ],
         "explanation": "per-operation contracts on the real steel-rc crate: each atomic step re-establishes the counting invariant I from any state satisfying it, under arbitrary interference",
     },
+    "C10": {
+        "units": ["num"],
+        "trusted_base": COMMON_TB + [
+            "units/num/prelude.rs: reduced SteelVal (same variant names/payloads), Gc as owning pointer, BigInt as exact i128 model (assumed contract of num-bigint), BigRational = real num_rational::Ratio over that model, error macros without message text",
+            "Rust's `/` and `%` on isize are truncated division (division specs are stated relative to them)",
+            "real num-traits / num-integer / num-rational code is executed as is",
+        ],
+        "assumptions": [
+            "bignum operands explored within +-2^100 (i128 model; overflow of the model is a reported failure, not silently ignored)",
+            "division family: exact results only on a boundary table (bounded), zero-divisor and panic-freedom on the full domain",
+            "rational / bigrational / complex arms, number<->string conversion, expt, gcd/lcm (Scheme level), exact-integer-sqrt, opcode arms inlined in VmCore::vm and JIT fast paths are NOT covered",
+            "known finding: fixnum/flonum ordering beyond 2^53 (listed in known_findings.txt)",
+        ],
+        "explanation": "numeric kernels of steel-core extracted verbatim and checked against mathematical-integer specs with Kani",
+    },
+    "C07": {
+        "units": ["num"],
+        "trusted_base": COMMON_TB + ["units/num/prelude.rs (see C10)"],
+        "assumptions": [
+            "only panic-freedom of the numeric built-ins on every scalar argument kind and magnitude is decided; arbitrary source text, native stack overflow and engine recovery after errors are NOT covered",
+            "collection-valued arguments (lists, vectors, strings) are not generated",
+        ],
+        "explanation": "panic-freedom obligations (Rust overflow / division / shift / unwrap / unreachable are MIR assertions checked by Kani) for numeric built-ins on all scalar kinds",
+    },
+    "C20": {
+        "units": ["num"],
+        "trusted_base": COMMON_TB + ["units/num/prelude.rs (see C10)", "extractor edit D5: textual instantiation of from_f64!/from_for_isize!/try_from_impl!"],
+        "assumptions": [
+            "containers, strings, registered structs and the whole lent-reference half (OpaqueReferenceNursery, BorrowedObject) are NOT covered (unsafe type-erased pointers + thread-local nursery)",
+            "arity/type checks of RegisterFn wrappers are not covered in this revision",
+        ],
+        "explanation": "integer/float/char/bool/unit/option conversions at the host boundary, full input domain",
+    },
 }
